@@ -332,7 +332,10 @@ def _history(n, prof, pre, pre_ping, recycle, amb, a0, b1, codes, dts, k1, kind1
                 op, w = al[a0]
             elif k == 1:
                 lo, hi = _chunk(len(al), b1)
-                assume(lo < hi)
+                if lo >= hi:
+                    # this part of the partition of the second operation is empty (alphabet shorter than NCHUNK after
+                    # the first operation): it contains no history; the sibling chunks cover the alphabet
+                    return True
                 op, w = al[_bpick(codes[k - 1], lo, hi)]
             else:
                 op, w = al[_bpick(codes[k - 1], 0, len(al))]
